@@ -10,9 +10,15 @@ fuzzylite.rule.Rule / Antecedent / Consequent and fuzzylite.hedge.Any.  It never
 Consequent.load, Function.infix_to_postfix or the importer; it only reads the names of the variables and terms of the engine.
 Other parts of the package used to exercise accepted results: FllExporter, Rule.activate_with / trigger, Engine.is_ready / process.
 
-Failure classes: `internal-error:<Type>`, `loaded-after-failure`, `accepted-malformed:<kind>`, `accepted-not-evaluable`,
-`accepted-not-processable`, `accepted-not-exportable`, `rule-not-loaded`, `doubtful:<Type>` (FLL only).  An entry of `skip_classes`
-(and `only_class`) matches a class exactly or as the prefix before a ':' (so "accepted-malformed" skips every kind).
+Failure classes: `internal-error:<Type>`, `loaded-after-failure`, `accepted-malformed:<region>` (region = rule | antecedent | consequent |
+antecedent-arrangement: the antecedent has the right ingredients - k valid propositions, k-1 operators, properly nested parentheses - but
+in an arrangement outside the grammar; the finer kind is in `expected`), `accepted-not-evaluable`, and for FLL documents also
+`accepted-not-exportable`, `accepted-not-processable:<Type>@<file:function>`, `rule-not-loaded`, `doubtful:<Type>` (RuntimeError,
+AssertionError, NotImplementedError, OverflowError at import).  An entry of `skip_classes` (and `only_class`) matches a class exactly or as
+the prefix before a ':' (so "accepted-malformed" skips every region).  Results also carry `accepted`, `rejected` ({"Type@file:function": n}:
+the exception types seen on rejected inputs and where they were raised), `rejected_valid` (+ up to 3 examples: texts of the reference
+grammar that the library rejects - information, not a failure) and `operators` (mutants run per operator).
+Limitation of the reference: a name that is also a hedge / keyword is read as a name where a term is expected.
 """
 import glob
 import hashlib
@@ -37,7 +43,7 @@ everything from a `#` on is a comment):
     number      ::= [+-] (digits ["." [digits]] | "." digits) [ (e|E) [+-] digits ]  |  [+-] ("inf" | "infinity" | "nan")
 
 `if`, `then`, `with` are reserved: the antecedent is what lies between the leading `if` and the first `then`, the consequent what lies
-between that `then` and the first following `with`.  Kinds reported for texts outside the grammar: keyword-if, keyword-then,
+between that `then` and the first following `with`.  Kinds reported (as region/kind) for texts outside the grammar: keyword-if, keyword-then,
 missing-antecedent, missing-consequent, missing-operand, missing-operator, missing-is, missing-term, unknown-variable, unknown-term,
 not-output-variable, paren, bad-connective, weight-missing, weight-non-numeric, trailing-token.
 """
